@@ -212,11 +212,23 @@ pub fn world(pool: &Pool, seed: u64, n: u64) -> Scenario {
     let kind = match g.rng.below(13) {
         0 | 1 => {
             let d = pick_dir(&mut g);
-            let od = match g.rng.below(4) {
+            // existing sub-directories of the walked directory (they hold grammars of their own)
+            let below: Vec<String> = g.dirs.iter().filter(|x| d == "." || x.starts_with(&format!("{d}/"))).cloned().collect();
+            let od = match g.rng.below(7) {
                 0 => "out".to_string(),
                 1 => "{ROOT}/proj/out abs".to_string(),
                 2 => format!("{d}/gen"),
-                _ => "../outside".to_string(),
+                3 => "../outside".to_string(),
+                4 | 5 if !below.is_empty() => {
+                    // the output directory lies inside the input directory and is part of the walk
+                    let b = g.rng.pick(&below).clone();
+                    match g.rng.below(3) {
+                        0 => b,
+                        1 => format!("{b}/"),
+                        _ => format!("{{ROOT}}/proj/{b}"),
+                    }
+                }
+                _ => d.clone(), // output directory = input directory
             };
             NodeKind::Api { calls: vec![CallSpec { entry: "process_dir".into(), path: Some(d), out_dir: Some(od), ..base.clone() }] }
         }
@@ -245,7 +257,9 @@ pub fn world(pool: &Pool, seed: u64, n: u64) -> Scenario {
             if use_env {
                 env.push(out_env.clone());
             }
-            NodeKind::Api { calls: vec![CallSpec { entry: "process".into(), in_dir: Some(spelled), out_dir: if use_env { None } else { Some("gen out".into()) }, ..base.clone() }] }
+            let below: Vec<String> = g.dirs.iter().filter(|x| x.starts_with(&format!("{d}/"))).cloned().collect();
+            let od = if !below.is_empty() && g.rng.chance(1, 3) { g.rng.pick(&below).clone() } else { "gen out".to_string() };
+            NodeKind::Api { calls: vec![CallSpec { entry: "process".into(), in_dir: Some(spelled), out_dir: if use_env { None } else { Some(od) }, ..base.clone() }] }
         }
         5 => {
             env.push(out_env.clone());
